@@ -5,9 +5,11 @@ ACC_CBMC = ["--unwind", "6", "--unwinding-assertions", "--sat-solver", "cadical"
 ACC_NOTE = "bounded: the closing section/task has at most 4 subgraphs (each possibly a create interval with its created task); summaries arbitrary below 2^58 clocks / 2^40 counts"
 JOBS = [
   Job("c18.leaf", TU, "h_leaf", enforce=["dr_end_interval_/end_interval_contract"], replace=EXIT,
-      cbmc=["--unwind", "6", "--unwinding-assertions"], fuc=["dr_end_interval_"], timeout=120),
+      cbmc=["--unwind", "6", "--unwinding-assertions"], fuc=["dr_end_interval_"], timeout=120,
+      note="complete: loops bounded by constants of the type (4 interval kinds, 5 edge kinds, 4 counters), fully unwound with unwinding assertions"),
   Job("c18.logical_counts", TU, "h_logical_counts", replace=EXIT,
-      cbmc=["--unwind", "6", "--unwinding-assertions"], fuc=["dr_get_logical_node_counts"], timeout=120),
+      cbmc=["--unwind", "6", "--unwinding-assertions"], fuc=["dr_get_logical_node_counts"], timeout=120,
+      note="complete: loop bounded by the number of interval kinds (4)"),
   Job("c18.lemma.cp_le_work", TU, "h_lemma_cp_le_work", fuc=[], timeout=120,
       note="arithmetic lemma on the recurrence (all 64-bit values below the stated no-wrap bound); inductive step of 'critical path <= work'"),
   Job("c18.collapse.frame", TU, "h_collapse", enforce=["dr_collapse_subgraph/collapse_contract"],
@@ -39,4 +41,40 @@ JOBS = [
   for k, what in ((1, "within budget"), (2, "root collapsed"), (3, "created task and inner section collapsed"),
                   (4, "created task collapsed"), (5, "already minimum"), (6, "inner section collapsed"))
 ]
-META = {"level": "other", "level_text": "", "level_note": "", "trusted_base": [], "explanation": "", "assumptions": []}
+META = {
+ "level": "other",
+ "level_text": "Proved for all inputs (contracts on the real bodies): a leaf interval's summary is (end - start, end - start, one node of its kind, no edges); "
+               "dr_collapse_subgraph assigns only cur_node_count, the emptied child list and the free list; for EVERY setting of node_count_target / "
+               "prune_threshold / collapse_max_count / uncollapse_min / collapse_max, dr_summarize_section_or_task leaves exactly the totals "
+               "dr_accumulate_stats computed; the recurrence step of 'critical path <= work' (arithmetic lemma, any list length). "
+               "Bounded (NOT counted as proved): dr_accumulate_stats computes the totals the property names from the children's summaries only, "
+               "for child lists of length <= 4; dr_free_dag and dr_prune_nodes_norec write no summary, on one concrete 10-node DAG "
+               "(six budget / worker-set scenarios for prune).",
+ "level_note": "The step from (summary = function of the children's summaries) + (no contraction writes a summary) to 'root totals are independent "
+               "of contraction' is an induction on the task tree done on paper. Not decided: which worker ran what, clock behaviour, the text of the "
+               ".stat file, the gen_stat.c cross-check work == root t_1, hooks. Trusted: cbmc 6.11 (dfcc), gcc -E.",
+ "trusted_base": ["cbmc 6.11.0 (goto-cc, goto-instrument --dfcc, SAT back ends MiniSat / CaDiCaL)", "gcc -E preprocessing of the real sources",
+                  "paper induction on the task tree (per-node obligations -> whole-DAG statement)"],
+ "explanation": "contracts/c18_dagrec.c includes the real dag_recorder.c (and through it dag_recorder_inl.h). Leaf: --enforce-contract on dr_end_interval_. "
+                "Frame of contraction: --enforce-contract on dr_collapse_subgraph (dr_free_dag by contract) and on dr_summarize_section_or_task with "
+                "accumulate / collapse / prune replaced by their contracts and all options nondeterministic; the totals are ghost values that accumulate's "
+                "contract leaves in the node and summarize's postcondition demands back. Accumulate: an oracle in the harness computes work (sum), critical "
+                "path (longest dependency chain), interval counts and edge counts (as dr_dump.c materialises them) from the children's summaries and the "
+                "real body must agree, for all well-nested child lists of length <= 4.",
+ "assumptions": [
+   "BOUND (kind=bounded): dr_accumulate_stats is checked for child lists of length <= 4 (ACC_N), each child possibly a create interval with its created task; well-nested lists only: section ::= (create|section|other)* wait, task ::= (section|other)* end",
+   "BOUND: per-summary clocks < 2^58 and node/edge counts < 2^40, PAPI counters in [0, 2^58): the recorder's 64-bit sums do not wrap (dr_clock_t is unsigned, wrap-around would be silent)",
+   "BOUND (kind=bounded): dr_free_dag and dr_prune_nodes_norec run on ONE concrete DAG of 10 nodes that contains every node kind (section -> create->task{other,end}, section{other,wait}, other, wait) with arbitrary summaries; prune in six concrete (budget, single-worker set) scenarios covering: within budget, root collapsed, both inner nodes collapsed, each inner node alone, already minimum. With symbolic budget/worker sets CBMC's symbolic execution did not finish",
+   "ASSUMED CONTRACT: dr_free_dag(g, 0, fl) assigns only g's child list and the free-list head/tail (used by the collapse proof); the `next` links it writes into the freed descendants are not modelled (dead nodes). Its frame is checked on the real body only in the bounded job",
+   "ASSUMED CONTRACT: dr_prune_nodes_norec, as seen by summarize, assigns only the root's cur_node_count / child list, the free list and the prune stack; cur_node_count and emptied lists of DESCENDANTS are not modelled there (bounded job checks the real body)",
+   "ASSUMED CONTRACT: the debug walker dr_check_node_counts (evaluated only when chk_level != 0) is read-only and returns cur_node_count; in the prune jobs chk_level = 0",
+   "In the prune jobs dr_collapse_subgraph is used through its contract (proved for an arbitrary node in c18.collapse.frame, instantiated at the three inner nodes)",
+   "STUB: exit() by a contract with requires(false): a reachable dr_check failure is an obligation; fprintf/printf body-less; verbose_level = dbg_level = 0 (diagnostic printing off); chk_level and record_cpu nondeterministic",
+   "STUB: sched_getcpu returns any int; inline asm rdtsc dropped by CBMC (clock values are harness inputs, any 64-bit value)",
+   "STUB (bounded free_dag/prune jobs): malloc returns a fresh 64-byte object for requests <= 64 bytes (objects of symbolic size exhaust CBMC's memory); larger requests fail an obligation",
+   "Leaf: end_t - start.t is the interval length modulo 2^64 (no assumption that the clock is monotone); start.worker == worker is assumed ('by construction' in the source)",
+   "summarize job: dr_accumulate_stats is replaced by a contract that leaves arbitrary ghost totals in s->info and touches nothing else (frame proved bounded); the job proves that no policy changes them afterwards and that contraction happens only after accumulation",
+   "CBMC does not check the bound of an array that is a struct member reached through a pointer: the out-of-range index logical_node_counts[s->info.kind] (kind = 4/5, array of 4) in dr_accumulate_stats is NOT an obligation (it stays inside the node; the clobbered edge counters are zeroed by the next loop) -- reported as an observation",
+   "Not decided: assignment of tasks to workers (info.worker / min_node_count only steer WHETHER a node is contracted), hooks, t_ready / est / counters_* summaries, dr_dump.c / gen_stat.c / chronological.c (file round trip, C19), the public dr_*__ entry points' list bookkeeping",
+ ],
+}
